@@ -229,6 +229,66 @@ def run(chk, model_ok=True):
                         why = f"datagram of {len(rec['datagrams'][0])} octets exceeds the buffer capacity"
                 if why:
                     fail(s.line()[:400000], str(r), f"{s.label} {rec['op']}: {why}")
+    # the Python clients in front of the socket: what get_many is given is what must be sized and sent — repeated
+    # OIDs included (a list that is oversized through repetition must be refused, a fitting one sent complete)
+    from gufo.snmp import SnmpVersion
+    from gufo.snmp.sync_client import SnmpSession as SyncSession
+    peer = e2e.Peer("v2c")
+    conv = e2e.Conv(peer, env)
+    seen = []
+
+    def script(op, req):
+        seen.append(req)
+        return [peer.response(req, [ber.varbind(tuple(v[0]), ber.INT(1)) for v in req["varbinds"]])]
+    sess = SyncSession("127.0.0.1", port=env.agent.port, community="public", version=SnmpVersion.v2c, timeout=0.05)
+    sess._sock = e2e.SockShim(conv, script)
+    n_cli = 0
+    a, b = "1.3.6.1.2.1.1.1.0", "1.3.6.1.2.1.1.5.0"
+    lists = [[a, b, a], [b] * 2, [b] * 128, [a, a, b, b, a], [b] * 250, [b] * 300, [a] * 400, [a, b] * 1000]
+    for lst in lists:
+        del seen[:]
+        r = e2e.ncall(lambda: sess.get_many(lst))
+        n_cli += 1
+        need = 30 + len(lst) * 14          # octets of a v2c request with these names (each varbind is 14)
+        sent = [tuple(v[0]) for q in seen for v in q.get("varbinds", [])]
+        want = [tuple(int(x) for x in o.split(".")) for o in lst]
+        if need > cap() + 14:
+            if r[0] == "ok" or seen:
+                fail("# sync get_many " + str(len(lst)), str(r)[:60], f"sync get_many of {len(lst)} names (about {need} octets, buffer {cap()}) was not refused: "
+                     f"{len(sent)} names were sent")
+            elif r[1] != "SnmpEncodeError":
+                fail("# sync get_many " + str(len(lst)), str(r)[:60], f"oversized get_many raised {r[1]} instead of SnmpEncodeError")
+        elif need < cap() - 14:
+            if sent != want:
+                fail("# sync get_many " + str(len(lst)), str(r)[:60], f"sync get_many of {len(lst)} names (fits the buffer) put {len(sent)} names on the wire: "
+                     f"{sent[:4]}.. instead of {want[:4]}..")
+
+    def async_many(lst):
+        got = []
+
+        def plan(dg):
+            req = peer.decode(dg)
+            got.append(req)
+            return [peer.response(req, [ber.varbind(tuple(v[0]), ber.INT(1)) for v in req["varbinds"]])]
+
+        async def main(port):
+            from gufo.snmp.async_client import SnmpSession
+            async with SnmpSession("127.0.0.1", port=port, community="public", version=SnmpVersion.v2c, timeout=0.6) as sx:
+                return await sx.get_many(lst)
+        r, _ = e2e.run_async(main, plan)
+        if r[0] == "exc" and r[1].startswith("PySnmp"):
+            r = ("exc", r[1][2:], r[2])
+        return r, [tuple(v[0]) for q in got for v in q.get("varbinds", [])]
+    for lst in ([a, b, a], [b] * 64, [a] * 400):
+        r, sent = async_many(lst)
+        n_cli += 1
+        want = [tuple(int(x) for x in o.split(".")) for o in lst]
+        if len(lst) == 400:
+            if r[:2] != ("exc", "SnmpEncodeError") or sent:
+                fail("# async get_many 400", str(r)[:60], f"async get_many of 400 names was not refused with SnmpEncodeError: {r!r:.60}, {len(sent)} names sent")
+        elif sent != want:
+            fail("# async get_many " + str(len(lst)), str(r)[:60], f"async get_many put {len(sent)} names on the wire instead of the {len(want)} requested")
+    chk.coverage["python_client_calls"] = n_cli
     chk.coverage["e2e_sends"] = n_e2e
     st.diff("C17 buffer / encoders")
     st.coverage(
